@@ -6,9 +6,10 @@ Open Scope N_scope.
 Section Procs.
 Variable crc : N -> N.
 Variable delcrc : N.
+Variable ka kb : N.
 
-Notation Inv := (Inv crc delcrc).
-Notation Inv0 := (Inv0 crc delcrc).
+Notation Inv := (Inv crc delcrc ka kb).
+Notation Inv0 := (Inv0 crc delcrc ka kb).
 Notation Snap := (Snap crc delcrc).
 Notation DocInv := (DocInv crc delcrc).
 Notation own := (own crc delcrc).
@@ -115,7 +116,7 @@ Definition IMemOk (m : imem) (pv : option prev) (s : state) : Prop :=
   | None => exists e, Snap s e /\ im_cas m = d_cas e /\ im_raw m = raw_of e /\ im_del m = negb (is_alive e)
   end.
 
-Definition ImportQ (s : state) : Prop := Inv s /\ own (doc s) = true /\ imports s + 1 <= exts s.
+Definition ImportQ (s : state) : Prop := Inv s /\ own (doc s) = true /\ imports s + 1 + ka <= exts s + kb.
 
 Lemma IMemOk_mono m s s' : IMemOk m None s -> mono s s' -> IMemOk m None s'.
 Proof. intros (e & Sn & R) Mo. exists e. split; auto. eapply Snap_mono; eauto. Qed.
@@ -175,7 +176,7 @@ Qed.
 Lemma import_attempt_ok s d : Inv s -> Snap s d ->
   forall s1 r, import_attempt crc delcrc (negb (is_alive d)) (raw_of d) s d = (s1, r) ->
   Inv s1 /\ mono s s1 /\
-  (forall u p, r = CbWrite u -> p_doc p = d -> WriteSpec crc delcrc ImportQ p u).
+  (forall u p, r = CbWrite u -> p_doc p = d -> WriteSpec crc delcrc ka kb ImportQ p u).
 Proof.
   intros HI Sd s1 r E. assert (Dd : DocInv (clk s) d) by apply Sd.
   unfold import_attempt in E.
@@ -230,7 +231,7 @@ Qed.
 Lemma import_cb_ok feed : forall m pv s, Inv s -> IMemOk m pv s -> PrevOk s (the_prev pv s) ->
   forall s1 r m', import_cb true crc delcrc feed m s (the_prev pv s) = (s1, r, m') ->
   Inv s1 /\ mono s s1 /\ IMemOk m' None s1 /\
-  (forall u, r = CbWrite u -> WriteSpec crc delcrc ImportQ (the_prev pv s) u).
+  (forall u, r = CbWrite u -> WriteSpec crc delcrc ka kb ImportQ (the_prev pv s) u).
 Proof.
   intros m pv s HI HM HP s1 r m' E.
   set (p := the_prev pv s) in *. set (d := p_doc p) in *.
@@ -246,7 +247,7 @@ Proof.
   assert (Fin : forall isdel raw, isdel = negb (is_alive d) -> raw = raw_of d ->
      (let '(s1, r) := import_attempt crc delcrc isdel raw s d in (s1, r, mkImem isdel (d_cas d) raw)) = (s1, r, m') ->
      Inv s1 /\ mono s s1 /\ IMemOk m' None s1 /\
-     (forall u, r = CbWrite u -> WriteSpec crc delcrc ImportQ p u)).
+     (forall u, r = CbWrite u -> WriteSpec crc delcrc ka kb ImportQ p u)).
   { intros isdel raw -> -> E'.
     destruct (import_attempt crc delcrc (negb (is_alive d)) (raw_of d) s d) as [s1' r'] eqn:EA.
     inversion E'; subst s1' r' m'; clear E'.
@@ -266,7 +267,40 @@ Proof.
     apply Fin in E; auto.
 Qed.
 
-Lemma Inv_add_import s : Inv s -> own (doc s) = true -> imports s + 1 <= exts s -> Inv (add_import s).
+(* in the repaired code every attempt that gets past the CAS-mismatch handling works on the document it was
+   handed, with the delete flag and raw body of that very document *)
+Lemma import_cb_resolve feed : forall m pv s, Inv s -> IMemOk m pv s -> PrevOk s (the_prev pv s) ->
+  forall s1 r m', import_cb true crc delcrc feed m s (the_prev pv s) = (s1, r, m') ->
+  (s1 = s /\ (r = CbErr ECasFail \/ r = CbErr EOther)) \/
+  import_attempt crc delcrc (negb (is_alive (p_doc (the_prev pv s)))) (raw_of (p_doc (the_prev pv s))) s
+                 (p_doc (the_prev pv s)) = (s1, r).
+Proof.
+  intros m pv s HI HM HP s1 r m' E.
+  set (p := the_prev pv s) in *. set (d := p_doc p) in *.
+  assert (Sd : Snap s d) by apply HP.
+  assert (Hm : d_cas d = im_cas m -> im_raw m = raw_of d /\ im_del m = negb (is_alive d)).
+  { intros C. destruct pv as [p0|]; cbn in HM.
+    - subst d p. cbn. tauto.
+    - destruct HM as (e & Se & C1 & C2 & C3). subst d p. cbn in *.
+      assert (e = doc s) by (apply (Snap_cas_eq crc delcrc); auto; congruence). subst e. auto. }
+  assert (Fin : forall isdel raw, isdel = negb (is_alive d) -> raw = raw_of d ->
+     (let '(s1, r) := import_attempt crc delcrc isdel raw s d in (s1, r, mkImem isdel (d_cas d) raw)) = (s1, r, m') ->
+     import_attempt crc delcrc (negb (is_alive d)) (raw_of d) s d = (s1, r)).
+  { intros isdel raw -> -> E'.
+    destruct (import_attempt crc delcrc (negb (is_alive d)) (raw_of d) s d) as [s1' r']. inversion E'; subst; auto. }
+  unfold import_cb in E. fold d in E.
+  destruct (negb (d_cas d =? im_cas m)) eqn:Mis; cbn [andb] in E.
+  - destruct feed; [inversion E; subst; left; auto|].
+    destruct (doc_body_nil d) eqn:BN; [inversion E; subst; left; auto|].
+    assert (Hdel : doc_deleted d = negb (is_alive d)).
+    { unfold doc_deleted, doc_body_nil in *. destruct (is_alive d), (has_sync d); cbn in *; congruence. }
+    right. apply Fin in E; auto.
+    rewrite Hdel. unfold raw_of. destruct (is_alive d); reflexivity.
+  - apply negb_false_iff, N.eqb_eq in Mis. destruct (Hm Mis) as [R1 R2].
+    right. apply Fin in E; auto.
+Qed.
+
+Lemma Inv_add_import s : Inv s -> own (doc s) = true -> imports s + 1 + ka <= exts s + kb -> Inv (add_import s).
 Proof.
   intros [[D F C] W] O Sl. split; [constructor|]; cbn; auto.
   rewrite pend_own by auto. lia.
@@ -283,7 +317,7 @@ Proof.
   intros HI Sx -> -> s' r E. unfold import_run in E.
   destruct (upd_loop crc delcrc fire 6 (import_cb true crc delcrc feed) (mkImem (negb (is_alive ex)) (d_cas ex) (raw_of ex))
               (Some (mkPrev ex false)) s) as [s1 lr] eqn:EL.
-  eapply (upd_loop_ok crc delcrc fire fire_ok imem _ IMemOk ImportQ IMemOk_mono (import_cb_ok feed)) in EL;
+  eapply (upd_loop_ok crc delcrc ka kb fire fire_ok imem _ IMemOk ImportQ IMemOk_mono (import_cb_ok feed)) in EL;
     [| exact HI | cbn; auto | intros p Ep; inversion Ep; subst p; split; cbn; auto; discriminate].
   destruct EL as [Mo R].
   destruct lr as [|e].
@@ -307,7 +341,7 @@ Proof.
   { unfold doc_deleted, raw_of. destruct (is_alive d), (has_sync d); reflexivity. }
   rewrite Hd, Hr in E.
   destruct (import_run true crc delcrc fire false (negb (is_alive d)) d (raw_of d) s) as [s1 ir] eqn:EI.
-  destruct (import_run_ok false _ d _ s HI (Snap_cur crc delcrc s (inv_doc _ _ _ (proj1 HI))) eq_refl eq_refl _ _ EI)
+  destruct (import_run_ok false _ d _ s HI (Snap_cur crc delcrc s (inv_doc _ _ _ _ _ (proj1 HI))) eq_refl eq_refl _ _ EI)
     as (I1 & M1 & _).
   destruct ir; inversion E; subst; auto.
 Qed.
@@ -342,7 +376,7 @@ Qed.
 Lemma put_cb_ok b : forall m pv s, Inv s -> PMemOk m pv s -> PrevOk s (the_prev pv s) ->
   forall s1 r m', put_cb true crc delcrc fire b m s (the_prev pv s) = (s1, r, m') ->
   Inv s1 /\ mono s s1 /\ PMemOk m' None s1 /\
-  (forall u, r = CbWrite u -> WriteSpec crc delcrc (PutQ b) (the_prev pv s) u).
+  (forall u, r = CbWrite u -> WriteSpec crc delcrc ka kb (PutQ b) (the_prev pv s) u).
 Proof.
   intros m pv s HI HM HP s1 r m' E. unfold PMemOk in HM. subst pv. cbn [the_prev] in *.
   unfold put_cb in E. cbn [p_doc] in E. set (d := doc s) in *.
@@ -412,7 +446,7 @@ Lemma gw_put_ok b s : Inv s ->
 Proof.
   intros HI s' r E. unfold gw_put in E.
   destruct (upd_loop crc delcrc fire 6 (put_cb true crc delcrc fire b) (client_rev (doc s)) None s) as [s1 lr] eqn:EL.
-  eapply (upd_loop_ok crc delcrc fire fire_ok _ _ PMemOk (PutQ b) PMemOk_mono (put_cb_ok b)) in EL;
+  eapply (upd_loop_ok crc delcrc ka kb fire fire_ok _ _ PMemOk (PutQ b) PMemOk_mono (put_cb_ok b)) in EL;
     [| exact HI | reflexivity | intros p Ep; discriminate].
   destruct EL as [Mo R]. destruct lr as [|e].
   - destruct R as (I0 & O1 & B1). inversion E; subst s' r; clear E.
@@ -444,7 +478,7 @@ Proof.
     split; [apply (di_nosync _ _ _ _ D Es) | auto].
   - intros sy2 E. subst sy'. destruct (d_sync d) as [sy|] eqn:Es; [|contradiction].
     destruct Hs as (H1 & H2 & H3 & H4).
-    destruct (di_sync _ _ _ _ D _ eq_refl) as (A1 & (v & Ev & Hv) & A3 & (r & t & Eh & Hc) & A5).
+    destruct (di_sync _ _ _ _ D _ Es) as (A1 & (v & Ev & Hv) & A3 & (r & t & Eh & Hc) & A5).
     rewrite H1, H2, H3, H4. split; [lia|]. split; [eauto|]. split; [auto|]. split; [eauto|]. intros X. lia.
 Qed.
 
@@ -464,8 +498,8 @@ Proof.
   - rewrite (own_crc crc delcrc _ _ sy2 D') by reflexivity.
     rewrite (own_crc crc delcrc _ _ sy D) by auto.
     assert (Bc : body_crc (mkDoc (d_st d) (d_body d) nc (Some sy2) (d_vv d) mou') = body_crc d) by reflexivity.
-    rewrite Bc, Hs. unfold has_sync. cbn. rewrite Es. lia.
-  - unfold ImportInv.own, has_sync. cbn. rewrite Es. lia.
+    rewrite Bc, Hs. unfold has_sync. cbn. rewrite Es. destruct (is_alive d || true), (body_crc d =? s_crc sy); cbn; lia.
+  - unfold ImportInv.own, has_sync. cbn. rewrite Es. cbn. destruct (is_alive d); cbn; lia.
 Qed.
 
 Definition TMemOk (m : unit) (pv : option prev) (s : state) : Prop := True.
@@ -473,7 +507,7 @@ Definition TMemOk (m : unit) (pv : option prev) (s : state) : Prop := True.
 Lemma meta_cb_ok : forall m pv s, Inv s -> TMemOk m pv s -> PrevOk s (the_prev pv s) ->
   forall s1 r m', meta_cb m s (the_prev pv s) = (s1, r, m') ->
   Inv s1 /\ mono s s1 /\ TMemOk m' None s1 /\
-  (forall u, r = CbWrite u -> WriteSpec crc delcrc Inv (the_prev pv s) u).
+  (forall u, r = CbWrite u -> WriteSpec crc delcrc ka kb Inv (the_prev pv s) u).
 Proof.
   intros m pv s HI _ HP s1 r m' E. set (p := the_prev pv s) in *. set (d := p_doc p) in *.
   unfold meta_cb in E. fold d in E.
@@ -518,7 +552,7 @@ Lemma gw_meta_ok s : Inv s -> forall s' r, gw_meta crc delcrc fire s = (s', r) -
 Proof.
   intros HI s' r E. unfold gw_meta in E.
   destruct (upd_loop crc delcrc fire 6 meta_cb tt None s) as [s1 lr] eqn:EL.
-  eapply (upd_loop_ok crc delcrc fire fire_ok _ _ TMemOk Inv TMemOk_mono meta_cb_ok) in EL;
+  eapply (upd_loop_ok crc delcrc ka kb fire fire_ok _ _ TMemOk Inv TMemOk_mono meta_cb_ok) in EL;
     [| exact HI | exact I | intros p Ep; discriminate].
   destruct EL as [Mo R]. inversion E; subst. split; auto. destruct lr; auto.
 Qed.
@@ -532,7 +566,7 @@ Proof.
   (destruct (is_tomb (doc s) && no_xattrs (doc s)); [inversion E; subst; split; auto using mono_refl|];
    destruct (doc_is_sg_write crc delcrc (doc s) (raw_of (doc s))); [inversion E; subst; split; auto using mono_refl|];
    destruct (import_run true crc delcrc fire false (negb (is_alive (doc s))) (doc s) (raw_of (doc s)) s) as [s1 ir] eqn:EI;
-   destruct (import_run_ok false _ (doc s) _ s HI (Snap_cur crc delcrc s (inv_doc _ _ _ (proj1 HI))) eq_refl eq_refl _ _ EI)
+   destruct (import_run_ok false _ (doc s) _ s HI (Snap_cur crc delcrc s (inv_doc _ _ _ _ _ (proj1 HI))) eq_refl eq_refl _ _ EI)
      as (I1 & M1 & _);
    destruct ir; inversion E; subst; auto).
 Qed.
@@ -540,7 +574,7 @@ Qed.
 Lemma nth_Snap s k : Inv s -> d_st (nth k (evs s) absent_doc) <> Absent -> Snap s (nth k (evs s) absent_doc).
 Proof.
   intros HI NA. destruct (Nat.lt_ge_cases k (length (evs s))) as [L|G].
-  - pose proof (inv_evs _ _ _ (proj1 HI)) as F. rewrite Forall_forall in F. apply F. apply nth_In; auto.
+  - pose proof (inv_evs _ _ _ _ _ (proj1 HI)) as F. rewrite Forall_forall in F. apply F. apply nth_In; auto.
   - rewrite nth_overflow in NA by lia. cbn in NA. congruence.
 Qed.
 
@@ -556,15 +590,23 @@ Proof.
     destruct (import_run true crc delcrc fire true isdel ev (raw_of ev) s) as [s1 ir] eqn:EI.
     destruct (import_run_ok true isdel ev _ s HI (nth_Snap s _ HI NA) eq_refl Ei _ _ EI) as (I1 & M1 & _).
     inversion X; subst; auto. }
-  destruct (d_st ev) eqn:St; [eapply Triv; eauto| |];
-  (destruct (is_tomb ev && no_xattrs ev); [eapply Triv; eauto|];
-   destruct (d_sync ev) as [sy|];
-   [destruct (sd_is_sg_write sy (d_cas ev) (body_crc ev) (d_vv ev)); [eapply Triv; eauto|];
-    eapply Run; eauto; [unfold is_tomb, is_alive; rewrite St; reflexivity | congruence]
-   |]).
-  - cbn [is_tomb] in E. unfold is_tomb in E. rewrite St in E. cbn in E.
-    eapply Run; eauto; [unfold is_alive; rewrite St; reflexivity | congruence].
-  - unfold is_tomb in E. rewrite St in E. cbn in E. eapply Triv; eauto.
+  destruct (d_st ev) eqn:St; [eapply Triv; eauto| |].
+  - (* alive *)
+    assert (T : is_tomb ev = false) by (unfold is_tomb; rewrite St; reflexivity).
+    assert (A : negb (is_alive ev) = false) by (unfold is_alive; rewrite St; reflexivity).
+    rewrite T in E. cbn [andb] in E.
+    destruct (d_sync ev) as [sy|].
+    + destruct (sd_is_sg_write sy (d_cas ev) (body_crc ev) (d_vv ev)); [eapply Triv; eauto|].
+      eapply (Run false); eauto; congruence.
+    + eapply (Run false); eauto; congruence.
+  - (* tombstone *)
+    assert (T : is_tomb ev = true) by (unfold is_tomb; rewrite St; reflexivity).
+    assert (A : negb (is_alive ev) = true) by (unfold is_alive; rewrite St; reflexivity).
+    rewrite T in E. cbn [andb] in E.
+    destruct (no_xattrs ev); [eapply Triv; eauto|].
+    destruct (d_sync ev) as [sy|]; [|eapply Triv; eauto].
+    destruct (sd_is_sg_write sy (d_cas ev) (body_crc ev) (d_vv ev)); [eapply Triv; eauto|].
+    eapply (Run true); eauto; congruence.
 Qed.
 
 (* ================= external operations ================= *)
@@ -589,7 +631,7 @@ Proof.
       * eapply DocInv_le; eauto. lia.
       * right. pose proof (di_cas _ _ _ _ De).
         destruct (d_st (doc s)); cbn; lia.
-    + match goal with |- _ + pend ?d <= _ => pose proof (pend_le1 d) end. lia.
+    + match goal with |- _ + pend ?d + _ <= _ => pose proof (pend_le1 d) end. lia.
     + destruct (d_st (doc s)); reflexivity.
   - repeat split; cbn; try lia. right. destruct (d_st (doc s)); cbn; lia.
 Qed.
@@ -597,18 +639,24 @@ Qed.
 Lemma ext_del_ok s : Inv s -> forall s' r, ext_del s = (s', r) -> Inv s' /\ mono s s'.
 Proof.
   intros HI s' r E. unfold ext_del in E.
-  destruct (d_st (doc s)) eqn:St; [inversion E; subst; split; auto using mono_refl| |];
-  (destruct HI as [[D F C] W]; inversion E; subst s' r; clear E; split;
-   [ assert (D' : DocInv (N.succ (clk s)) (mkDoc Tomb 0 (N.succ (clk s)) (d_sync (doc s)) (d_vv (doc s)) (d_mou (doc s))));
-     [ eapply keep_DocInv; eauto; try congruence; try lia;
-       [destruct (d_sync (doc s)); auto | intros X; apply (di_nosync _ _ _ _ D X)] |];
-     split; [constructor|]; cbn;
-     [ exact D'
-     | eapply Forall_impl; [|exact F]; intros e [De Oe]; split; cbn;
-       [eapply DocInv_le; eauto; lia | right; pose proof (di_cas _ _ _ _ De); lia]
-     | match goal with |- _ + pend ?d <= _ => pose proof (pend_le1 d) end; lia
-     | reflexivity ]
-   | repeat split; cbn; try lia ]).
+  set (d' := mkDoc Tomb 0 (N.succ (clk s)) (d_sync (doc s)) (d_vv (doc s)) (d_mou (doc s))) in *.
+  assert (Go : d_st (doc s) <> Absent ->
+    Inv (set_wb (add_ext (set_doc s d')) (Tomb, 0)) /\ mono s (set_wb (add_ext (set_doc s d')) (Tomb, 0))).
+  { intros NA. destruct HI as [[D F C] W].
+    assert (Mo : mono s (set_wb (add_ext (set_doc s d')) (Tomb, 0))) by (repeat split; cbn; lia).
+    split; [|exact Mo].
+    assert (D' : DocInv (N.succ (clk s)) d').
+    { eapply keep_DocInv; eauto; try congruence; try lia;
+       [destruct (d_sync (doc s)); auto | intros X; apply (di_nosync _ _ _ _ D X)]. }
+    split; [constructor|]; cbn.
+    - exact D'.
+    - eapply Forall_impl; [|exact F]. intros e Se. eapply Snap_mono; [exact Se|exact Mo].
+    - pose proof (pend_le1 d'). lia.
+    - reflexivity. }
+  destruct (d_st (doc s)) eqn:St.
+  - inversion E; subst; split; auto using mono_refl.
+  - inversion E; subst. apply Go. congruence.
+  - inversion E; subst. apply Go. congruence.
 Qed.
 
 Lemma ext_touch_ok s : Inv s -> forall s' r, ext_touch s = (s', r) -> Inv s' /\ mono s s'.
@@ -624,9 +672,10 @@ Proof.
   assert (P : pend d' <= pend (doc s)).
   { eapply keep_pend; eauto. destruct (d_sync (doc s)); auto. }
   split.
-  - split; [apply commit_Inv0; auto; [constructor; auto]|].
-    cbn. rewrite W. unfold bstate. cbn. rewrite St. reflexivity.
-  - apply mono_set_doc. reflexivity.
+  - split.
+    + apply commit_Inv0; [constructor; auto | reflexivity | exact D' | exact P].
+    + cbn [wb set_doc doc]. rewrite W. unfold bstate. subst d'. cbn. congruence.
+  - subst d'. repeat split; cbn; lia.
 Qed.
 
 Lemma simple_step_ok o s : Inv s ->
